@@ -575,6 +575,17 @@ def _name_side(R, cs, w, U, S, uris):
     for sh in range(4):
         R.side('nrm_kinds%d' % sh, lambda: nm(Name.normalize(_kinded(cs, uris, sh))))
     R.side('pre_kinds', lambda: 'ok=%s' % Name.is_prefix(_kinded(cs, uris, 1), _kinded(cs, uris, 2)))
+    # the prefix test across CONTAINER forms of the same components: tuple / list / generator / wire / URI on either side
+    # (a prefix of j components against the whole name, and the whole name against that prefix)
+    forms = {'t': lambda x: tuple(bytes(c) for c in x), 'l': lambda x: [bytes(c) for c in x],
+             'g': lambda x: (bytes(c) for c in x), 'w': lambda x: bytes(Name.encode([bytes(c) for c in x]))}
+    for j in sorted({0, n // 2, n}):
+        for a in 'tlgw':
+            for b in 'tlgw':
+                if a == b and a != 't':
+                    continue
+                R.side('prec_%s%s_%d' % (a, b, j), lambda: 'ok=%s' % Name.is_prefix(forms[a](cs[:j]), forms[b](cs)))
+                R.side('perc_%s%s_%d' % (a, b, j), lambda: 'ok=%s' % Name.is_prefix(forms[a](cs), forms[b](cs[:j])))
     for i, c in enumerate(cs[:3]):
         t, v = Component.get_type(c), bytes(Component.get_value(c))
         R.side('fhex%d' % i, lambda: 'ok=' + _hx(Component.from_hex(v.hex(), t)))
@@ -857,6 +868,12 @@ def _name_side_oracle(comps, L, D, want, wlen):
     if D.get('pre_s_w') != 'ok=True' or D.get('pre_w_s') != 'ok=True':
         return 'is_prefix between the URI and the wire of the same name is not True'
     for lab, tok in D.items():
+        if lab.startswith('prec_') and tok != 'ok=True':
+            return ('is_prefix(n[:j], n) is not True when the two names are given in different container forms '
+                    f'({lab[5]} / {lab[6]}: t = tuple, l = list, g = generator, w = wire)')
+        if lab.startswith('perc_') and tok != ('ok=True' if int(lab.split('_')[2]) == n else 'ok=False'):
+            return ('is_prefix(n, n[:j]) disagrees with component-wise equality when the two names are given in different '
+                    f'container forms ({lab[5]} / {lab[6]})')
         if lab.startswith('pre_w_') and tok != 'ok=True':
             return 'is_prefix(wire of n[:j], wire of n) is not True'
         if lab.startswith('erp_w_') and tok != ('ok=True' if int(lab[6:]) == n else 'ok=False'):
